@@ -889,8 +889,8 @@ def run(rec, rng, tier, shard, nshards):
     quick = tier == 'quick'
     if shard == 0:
         for case in REGRESSION: run_case(case, rec)
-    n_rand = 9000 if quick else 150000
-    n_hist = 700 if quick else 12000
+    n_rand = 25000 if quick else 250000
+    n_hist = 2000 if quick else 25000
     maxlen = 30
     gens = [(gen_op, 0.42), (gen_get, 0.12), (gen_set, 0.2), (gen_reduce, 0.1), (gen_construct, 0.06), (gen_reject, 0.1)]
     names, weights = zip(*gens)
